@@ -30,7 +30,7 @@ theorem SegIt.nextAtOrAfter_snd (it : SegIt) (n : Nat) :
     | none => rfl
     | some d =>
       simp only [SegIt.nextAtOrAfter, SegIt.toList]
-      by_cases h : d < n <;> simp [h, SegIt.toList]
+      by_cases h : d < n <;> simp [h]
 
 theorem dropWhile_lt_zero (l : List Nat) : l.dropWhile (fun x => decide (x < 0)) = l := by
   cases l <;> simp
@@ -50,7 +50,7 @@ theorem SegIt.advanceIfNeeded_toList (it : SegIt) (n : Nat) :
     | none => rfl
     | some d =>
       simp only [SegIt.advanceIfNeeded, SegIt.toList]
-      by_cases h : d < n <;> simp [h, SegIt.toList]
+      by_cases h : d < n <;> simp [h]
 
 /-- `Advance(n)` of a per-segment iterator is `AdvanceIfNeeded(n)` followed by `Next()` -/
 theorem SegIt.adv_eq (it : SegIt) (n : Nat) : it.adv n = (it.advanceIfNeeded n).next := by
@@ -62,7 +62,7 @@ theorem SegIt.adv_eq (it : SegIt) (n : Nat) : it.adv n = (it.advanceIfNeeded n).
     | none => rfl
     | some d =>
       simp only [SegIt.adv, SegIt.next, SegIt.nextAtOrAfter, SegIt.advanceIfNeeded]
-      by_cases h : d < n <;> simp [h, SegIt.nextAtOrAfter]
+      by_cases h : d < n <;> simp [h]
 
 /-- an iterator that answered `nil` stays exhausted -/
 theorem SegIt.next_none_idem (it : SegIt) (h : it.next.1 = none) : it.next.2.next = (none, it.next.2) := by
